@@ -481,7 +481,7 @@ func runC16(c *explore.Ctx) {
 				}
 			}
 		}
-		for _, n := range []int{4, 8, 16, 256, 65532} {
+		for _, n := range []int{0, 4, 8, 16, 256, 65532} {
 			if !c.Mine() {
 				continue
 			}
@@ -507,7 +507,7 @@ func init() {
 		Prop:  "C16",
 		Level: "exploration",
 		Rule: "boundary alphabet: key lengths {0,1,2,255,256,65534,65535} x value lengths {0,1,65535,65536,1 MiB} + the lengths that make the record end at a 512-byte / bufio-window / 64 KiB boundary -5..+1 (so that the length prefix of the following small record straddles it), each put into an empty database and after 1 and 2 small records, under the default segment size and under 1 KiB segments (record larger than the remaining space / than a whole segment): byte-exact Get/GetAppend/Has/scan/Count right after the Put, after recovery of the unclean image, after a clean restart and after deleting the key again. " +
-			"Limits: keys of 65536, 65537 and 65536+n / 131072+n bytes whose first n bytes equal a stored n-byte key AND whose 32-bit hash is forged to equal the stored key's hash (n in {4,8,16,256,65532}): Put must fail and leave file-system image, file list and Count unchanged, Get/GetAppend/Has/Delete must behave as for an absent key; value of MaxValueLength+1 rejected the same way (thorough: exactly MaxValueLength round-trips incl. recovery). On the repository's own file systems (fs.OSMMap: mapped files whose mapping grows; fs.OS): values of 0, 64 KiB, 3 MiB, 70 MiB, 130 MiB (thorough: 300 MiB) into an empty database and after 2 small records: byte-exact Get/Has/scan/Count right after the Put, after one more Put and after a restart; a panic or memory fault is a violation. distinct_nontrivial = distinct (config, lengths) cases",
+			"Limits: keys of 65536, 65537 and 65536+n / 131072+n bytes whose first n bytes equal a stored n-byte key AND whose 32-bit hash is forged to equal the stored key's hash (n in {0,4,8,16,256,65532}; n = 0: the stored key is the empty key): Put must fail and leave file-system image, file list and Count unchanged, Get/GetAppend/Has/Delete must behave as for an absent key; value of MaxValueLength+1 rejected the same way (thorough: exactly MaxValueLength round-trips incl. recovery). On the repository's own file systems (fs.OSMMap: mapped files whose mapping grows; fs.OS): values of 0, 64 KiB, 3 MiB, 70 MiB, 130 MiB (thorough: 300 MiB) into an empty database and after 2 small records: byte-exact Get/Has/scan/Count right after the Put, after one more Put and after a restart; a panic or memory fault is a violation. distinct_nontrivial = distinct (config, lengths) cases",
 		Assumptions:   []string{"input enumeration over a stated boundary alphabet: the numeric ranges themselves (2^16 x 2^29) are not exhausted", "content of keys/values is a fixed pattern"},
 		QuickBudget:   100 * time.Second,
 		ThorBudget:    25 * time.Minute,
